@@ -165,7 +165,8 @@ pub fn run(ctx: &mut Ctx) -> (&'static str, String, bool) {
     // double-byte character, Latin-1 and other-codepage letters, codepage letters, a reserved character)
     {
         // "ю" "я" are FE FF in CP1251 and "ÿ" "þ" are FF FE in CP1252: byte-order-mark look-alikes at the start of a segment
-        const TOKENS: [&str; 16] = ["^8", "^", "^1", "あ", "美", "é", "ě", "ж", "L", "E", "|", "１", "ю", "я", "ÿ", "þ"];
+        // "€" is a single byte (0x80) in GBK, reached after a simplified-only character such as "们"
+        const TOKENS: [&str; 18] = ["^8", "^", "^1", "あ", "美", "é", "ě", "ж", "L", "E", "|", "１", "ю", "я", "ÿ", "þ", "€", "们"];
         let maxtok = ctx.tier.pick(5usize, 6usize);
         let mut ntok = 0u64;
         for len in 1..=maxtok {
